@@ -221,6 +221,9 @@ PROPS = {
             # the closed model against the real formatter under lf and crlf configurations; the driver tallies how often
             # the premises of C09_format_full_crlf_config hold (info_c09)
             {"stream": "full", "name": "whole", "families": "seeds_sample,grammar,layout,marked,mlsfam,mlsshift,regions", "quick": 3000, "thorough": 30000, "binding": ["out", "*"]},
+            # third clause: the same text with LF and with CRLF line breaks through the closed model (both outputs compared with the
+            # real formatter's); the premise of the layout theorem C06_format_full_checked is evaluated on the pair (info_c06)
+            {"stream": "full", "name": "input_endings", "families": "crlfpair", "quick": 1500, "thorough": 15000, "binding": ["out", "out2", "*"]},
         ],
         "oracle_prefixes": ["c09", "glue"],
         "abnormal_binding": False,
